@@ -63,6 +63,7 @@ type Inst struct {
 	P      string
 	X      string
 	Shared bool
+	badRQ  bool // the creating reference passes a value that fails the task's requires/enum guard
 	deps   []*Inst
 	ents   []*ent
 	refs   []refBy
@@ -153,7 +154,7 @@ func (m *Model) inst(parent *Inst, r *Ref, item, how string) *Inst {
 		i.refs = append(i.refs, refBy{parent, how})
 		return i
 	}
-	i := &Inst{T: t, P: p, X: x, Shared: t.Run != Always}
+	i := &Inst{T: t, P: p, X: x, Shared: t.Run != Always, badRQ: r.BadRQ && t.Run == Always}
 	i.refs = append(i.refs, refBy{parent, how})
 	m.insts[key] = i
 	m.order = append(m.order, i)
@@ -191,6 +192,20 @@ func (m *Model) expand(i *Inst) {
 			i.ents = append(i.ents, en)
 		}
 	}
+}
+
+// guardFails is Task.GuardFails for one instance: a reference may pass a bad value for the
+// variable a requires/enum guard checks although other references to the task pass a good one.
+func (m *Model) guardFails(i *Inst) string {
+	if g := i.T.GuardFails(m.P.Yes); g == "platform" || !i.badRQ {
+		return g
+	}
+	for _, g := range i.T.Guards {
+		if g.Kind == "requires" || g.Kind == "enum" {
+			return g.Kind
+		}
+	}
+	return i.T.GuardFails(m.P.Yes)
 }
 
 func (m *Model) fail(i *Inst, cause string, by *Inst) {
@@ -240,7 +255,7 @@ func (m *Model) reach(i *Inst) bool {
 	}
 	m.expand(i)
 	i.phase = phDeps
-	switch g := i.T.GuardFails(m.P.Yes); g {
+	switch g := m.guardFails(i); g {
 	case "platform":
 		i.phase = phDone // skipped silently and successfully
 	case "requires", "enum":
@@ -288,7 +303,7 @@ func (m *Model) advance(i *Inst, vis map[*Inst]bool) bool {
 			if !all {
 				return changed
 			}
-			if g := i.T.GuardFails(m.P.Yes); g == "precondition" || g == "prompt" {
+			if g := m.guardFails(i); g == "precondition" || g == "prompt" {
 				m.fail(i, "guard:"+g, nil)
 				i.phase = phDone
 				m.FailureSeen, m.GuardFailed = true, true
@@ -508,7 +523,7 @@ func (m *Model) peekFirst(i *Inst, abortOf *Inst, skip int, out map[string]slot,
 		}
 		return
 	}
-	if g := i.T.GuardFails(m.P.Yes); g != "" {
+	if g := m.guardFails(i); g != "" {
 		return
 	}
 	m.expand(i)
@@ -727,7 +742,7 @@ func (m *Model) diagnose(ev Event) *V {
 		}
 		return &V{Rule: "UNEXP.task", Tags: "-", Props: []string{"C02"}, What: id + ": unknown task"}
 	}
-	if g := i.T.GuardFails(m.P.Yes); g != "" {
+	if g := m.guardFails(i); g != "" {
 		return &V{Rule: "GUARD.ran", Tags: "guard=" + g, Props: []string{"C13"}, What: id + " ran although guard " + g + " excludes the task"}
 	}
 	isDefer := e.e.Kind == DeferCmd
@@ -831,6 +846,9 @@ func (m *Model) diagnose(ev Event) *V {
 		}
 		if strings.HasPrefix(i.cause, "guard:") {
 			props = []string{"C13"}
+		}
+		if i.causeBy != nil && strings.HasPrefix(i.causeBy.cause, "guard:") {
+			props = append(props, "C13") // the caller / dependent of a guarded-out task must fail too
 		}
 		if by != "plain" {
 			props = append(props, "C06")
@@ -977,28 +995,36 @@ func (m *Model) evidence(i *Inst, depth int) {
 // End performs the end-of-run checks. runErr is the error returned by Run.
 func (m *Model) End(runErr error) []V {
 	var vs []V
-	expectFail := m.FatalFired > 0 || m.GuardFailed || m.rootInternal
-	if expectFail && runErr == nil {
-		tag := "fatal-command"
-		if m.FatalFired == 0 {
-			tag = "guard"
+	anyFailure := m.FatalFired > 0 || m.GuardFailed || m.rootInternal
+	// A failure only has to surface if it reaches a root: failures inside deferred calls or under
+	// ignore_error are swallowed on purpose.
+	var failedRoot *Inst
+	allOK := !m.rootInternal
+	for _, r := range m.roots {
+		if r.phase == phDone && r.failed && failedRoot == nil {
+			failedRoot = r
 		}
-		// which kind of instance carried the failure
-		vs = append(vs, V{Rule: "END.err-nil", Tags: tag, Props: []string{"C03", "C13"}, What: "a non-ignored failure occurred but Run returned nil"})
+		if r.phase != phDone || r.failed {
+			allOK = false
+		}
 	}
-	if !expectFail {
-		if runErr != nil {
-			vs = append(vs, V{Rule: "END.err", Tags: "-", Props: []string{"C03", "C07", "C02"}, What: "no failure was generated but Run returned: " + runErr.Error()})
-		}
-		for _, r := range m.roots {
-			if r.phase != phDone || r.failed {
-				missing := m.missing()
-				vs = append(vs, V{Rule: "END.missing", Tags: "-", Props: []string{"C07", "C06", "C02", "C14"},
-					What: fmt.Sprintf("run ended without failure but expected events never happened: %v", missing)})
-				break
+	if (failedRoot != nil || m.rootInternal) && runErr == nil {
+		tag := "guard"
+		for o, n := failedRoot, 0; o != nil && n < 50; o, n = o.causeBy, n+1 {
+			if o.cause == "own" {
+				tag = "fatal-command"
 			}
 		}
+		vs = append(vs, V{Rule: "END.err-nil", Tags: tag, Props: []string{"C03", "C13"}, What: "a non-ignored failure reached a task named on the command line but Run returned nil"})
 	}
+	if allOK && runErr != nil {
+		vs = append(vs, V{Rule: "END.err", Tags: "-", Props: []string{"C03", "C07", "C02", "C14"}, What: "every task named on the command line completed in the model (failures, if any, were ignored or inside deferred calls) but Run returned: " + runErr.Error()})
+	}
+	if !anyFailure && !allOK {
+		vs = append(vs, V{Rule: "END.missing", Tags: "-", Props: []string{"C07", "C06", "C02", "C14"},
+			What: fmt.Sprintf("run ended without failure but expected events never happened: %v", m.missing())})
+	}
+	expectFail := anyFailure
 	// every defer that was certainly registered must have run (C14), whatever stopped the task
 	var notRun []string
 	for _, i := range m.insts {
@@ -1011,7 +1037,7 @@ func (m *Model) End(runErr error) []V {
 			}
 			if e.e.Kind == DeferCmd {
 				notRun = append(notRun, "D "+e.cid+" "+i.P)
-			} else if e.callee.phase == phIdle && e.callee.T.GuardFails(m.P.Yes) == "" {
+			} else if e.callee.phase == phIdle && m.guardFails(e.callee) == "" {
 				notRun = append(notRun, "call "+e.cid+" "+i.P)
 			}
 		}
